@@ -147,9 +147,11 @@ def render(recs, layout, sul=None, payloads=None, vm=None):
         else:
             out += payload(k + 1, rec['len'])[off:off + s['n']]
         if s['pad']:
-            out += b'\x01' * (s['pad'] - 1) + bytes([s['pad']])
+            # what the pad bytes before the count byte hold is nobody's business (only the last one, the pad count, means something);
+            # likewise the checksum VALUE (the reader does not verify it)
+            out += bytes(((len(out) + 37 * j + 11) * 73) & 0xFF for j in range(s['pad'] - 1)) + bytes([s['pad']])
         if s['ck']:
-            out += b'\xc5\x5c'
+            out += bytes([(len(out) * 31 + 5) & 0xFF, (len(out) * 17 + 201) & 0xFF])
         if s['tr']:
             out += L.to_bytes(2, 'big')
         if last:
